@@ -15,7 +15,9 @@ import (
 	"crypto/ecdsa"
 	"fmt"
 	"math/big"
+	"runtime/debug"
 	"sort"
+	"strings"
 
 	"github.com/youchainhq/go-youchain/common"
 	"github.com/youchainhq/go-youchain/core"
@@ -35,6 +37,7 @@ import (
 // ---- inputs (a History fully determines a run; it is the replay format) ----
 
 type Params struct {
+	Unit             string    `json:"unit"` // params.StakeUint for this history
 	Freq             uint64    `json:"freq"`
 	WithdrawDelay    uint64    `json:"withdraw_delay"`
 	Retention        uint64    `json:"retention"`
@@ -171,6 +174,7 @@ type TxOut struct {
 }
 
 type BlockOut struct {
+	Topics  []string
 	Number  uint64
 	Crashed string
 	Txs     []TxOut
@@ -291,6 +295,11 @@ func (p *Params) youParams(pool, penalty common.Address) *params.YouParams {
 
 func newWorld(h *History) *World {
 	w := &World{h: h, txids: map[common.Hash]int64{}}
+	if h.Params.Unit == "" {
+		h.Params.Unit = "1000000000000000000"
+	}
+	params.StakeUint = bigS(h.Params.Unit)
+	setUnit(h.Params.Unit)
 	w.pool = common.BigToAddress(big.NewInt(0x1111111111))
 	w.penalty = common.BigToAddress(big.NewInt(0x1111111112))
 	w.yp = h.Params.youParams(w.pool, w.penalty)
@@ -553,6 +562,17 @@ func (w *World) runBlock(b *BlockIn) (out *BlockOut) {
 			if len(out.Crashed) > 160 {
 				out.Crashed = out.Crashed[:160]
 			}
+			// name the innermost staking function on the stack (for the outcome classes)
+			for _, ln := range strings.Split(string(debug.Stack()), "\n") {
+				if i := strings.Index(ln, "go-youchain/staking."); i >= 0 && !strings.Contains(ln, "EndBlock") {
+					f := ln[i+len("go-youchain/staking."):]
+					if j := strings.Index(f, "("); j > 0 {
+						f = f[:j]
+					}
+					out.Crashed += " @" + f
+					break
+				}
+			}
 		}
 	}()
 	stakingRoot := core.StakingRootForNewBlock(w.yp.StakingTrieFrequency, parent)
@@ -662,10 +682,19 @@ func (w *World) runBlock(b *BlockIn) (out *BlockOut) {
 	for _, r := range recs {
 		if r != nil {
 			receipts = append(receipts, r)
+			for _, l := range r.Logs { // outcome classes of the end-of-block code, by log topic
+				if len(l.Topics) > 0 {
+					out.Topics = append(out.Topics, strings.TrimLeft(string(l.Topics[0].Bytes()), "\x00"))
+				}
+			}
 		}
 	}
 	out.Subsidy = new(big.Int).Set(header.Subsidy)
 	header.Root, header.ValRoot, header.StakingRoot = st.IntermediateRoot(true)
+	if err := st.Error(); err != nil {
+		// e.g. "rlp: cannot encode negative *big.Int" from updateStakingTrie: the tries of this block are unreliable
+		panic("dberr: " + err.Error())
+	}
 	block := types.NewBlock(header, txs, receipts)
 	root, valRoot, sRoot, err := st.Commit(true)
 	if err != nil {
